@@ -64,6 +64,11 @@ func (s *Service) BeaconBlockRoot(ctx context.Context,
 
 				return
 			}
+			if rootResponse == nil || rootResponse.Data == nil {
+				// A response without data is not a response we can use.
+				log.Warn().Dur("elapsed", time.Since(started)).Msg("Obtained empty beacon block root response; ignoring")
+				return
+			}
 			log.Trace().Str("provider", name).Dur("elapsed", time.Since(started)).Msg("Obtained beacon block root")
 
 			ch <- rootResponse
